@@ -37,7 +37,7 @@ pub const INJECTED: [&str; 13] = [
     "State<'_, Vec<String>>",
 ];
 pub const CHANNEL_SPELLINGS: [&str; 3] = ["Channel<i32>", "tauri::ipc::Channel<String>", "Channel<Vec<u8>>"];
-pub const NAMES: [&str; 11] = ["a", "user_id", "user_id2", "x_1", "_x", "a__b", "type_", "r#type", "http2_url", "top_3d_models", "on_2fa_code"];
+pub const NAMES: [&str; 14] = ["a", "user_id", "user_id2", "x_1", "_x", "a__b", "type_", "r#type", "http2_url", "top_3d_models", "on_2fa_code", "delete", "default", "new"];
 pub const PARAM_CASES: [&str; 6] = ["camelCase", "snake_case", "PascalCase", "SCREAMING_SNAKE_CASE", "kebab-case", "SCREAMING-KEBAB-CASE"];
 
 /// arguments of the command macro: (text after `tauri::command`, the key case it makes Tauri use)
